@@ -832,38 +832,38 @@ func r023(c *Ctx, inEng map[*ssa.Function]bool) {
 		// marking the enclosing negation: an intersection above folds Unknown to NotMember, and the
 		// enclosing negation must not flip that
 		{
-			isMemCmp := func(v ssa.Value, want string) bool {
-				op, x, y, ok := core.BinCmp(v)
-				if !ok || op != token.EQL || !core.IsNamed(x.Type(), checkgroupPkg, "Membership") {
+			// "the membership differs from <want>" holds under the branch condition cd
+			memDiffers := func(cd core.Cond, want string) bool {
+				op, x, y, ok := cd.Holds()
+				if !ok || op != token.NEQ || !core.IsNamed(x.Type(), checkgroupPkg, "Membership") {
 					return false
 				}
 				k, isK := core.IntConst(y)
 				return isK && k == ri.MemberVals[want]
 			}
-			// the edge taken when both comparisons fail: the false successor of a test of one
-			// constant that is itself on the false side of a test of the other
+			// the edge taken when the result is neither: the first block entered with both
+			// "membership != IsMember" and "membership != NotMember" established, whatever the
+			// order and the form (switch, if-chain, == or !=) of the two tests
 			var undet *ssa.BasicBlock
 			for _, b := range fn.Blocks {
-				if len(b.Instrs) == 0 {
+				if len(b.Preds) != 1 || undet != nil {
 					continue
 				}
-				ifi, ok := b.Instrs[len(b.Instrs)-1].(*ssa.If)
-				if !ok {
-					continue
-				}
-				var other string
-				switch {
-				case isMemCmp(ifi.Cond, "NotMember"):
-					other = "IsMember"
-				case isMemCmp(ifi.Cond, "IsMember"):
-					other = "NotMember"
-				default:
-					continue
-				}
-				for _, cd := range core.CondsAt(b) {
-					if !cd.True && isMemCmp(cd.V, other) {
-						undet = b.Succs[1]
+				notIs, notNot, byEdge := false, false, false
+				conds := core.CondsOnEdge(b.Preds[0], b)
+				for i, cd := range conds {
+					own := i == len(conds)-1 && cd.At == b.Preds[0]
+					if memDiffers(cd, "IsMember") {
+						notIs = true
+						byEdge = byEdge || own
 					}
+					if memDiffers(cd, "NotMember") {
+						notNot = true
+						byEdge = byEdge || own
+					}
+				}
+				if notIs && notNot && byEdge {
+					undet = b
 				}
 			}
 			if undet == nil {
@@ -1083,8 +1083,8 @@ func r024(c *Ctx) {
 			}
 			okDom := false
 			for _, cd := range core.CondsAt(b) {
-				op, x, y, ok := core.BinCmp(cd.V)
-				if !ok || !cd.True {
+				op, x, y, ok := cd.Holds()
+				if !ok {
 					continue
 				}
 				isLen := func(v ssa.Value) bool {
